@@ -101,7 +101,7 @@ PROPS = {
         ],
     },
     'C13': {
-        'contracts': ['pexpect.utils.split_command_line', 'pexpect.utils.is_executable_file', 'pexpect.utils.which'],
+        'contracts': ['pexpect.utils.split_command_line', 'pexpect.utils.is_executable_file', 'pexpect.utils.which', 'pexpect.pty_spawn.spawn._spawn'],
         'extra': 'contracts.extra_c13',
         'bounds': {'*': {'alphabet': "a '\"\\\\", 'maxlen': 5}},
         'assumptions': ['str.isspace() decides what separates arguments (uninterpreted in the proof; the reference rules use the same predicate)',
